@@ -8,13 +8,22 @@ EXTENDS Ndl, Json
 CONSTANT MaxChanges
 VARIABLE p       \* the chosen value of every variation point
 
-Slots == [leafPortsK : {2, 1, 3, 0}, leaf2Inherit : {"Leaf", "", "Nope", "Leaf2"}, boxArg : {"Leaf2", "Leaf", "Other", "Box", "Nope"},
-          boxArgsN : {1, 0, 2}, midLsK : {2, 1, 0, Atom}, nIdx : {1, 0, 2}, connGate : {"port", "nogate"}, connSub : {"m", "nosub"},
-          link : {"L2", "", "L9", "L3"}, entry : {"Main", "Nope", "Mid"}, dupGen : {FALSE, TRUE}, selfConn : {FALSE, TRUE},
-          nK : {2, 3, 0}, sideIdx : {0, 1, 2, Atom}, boxInArgs : {0, 1}]
+Doms == [leafPortsK |-> {2, 1, 3, 0}, leaf2Inherit |-> {"Leaf", "", "Nope", "Leaf2"}, boxArg |-> {"Leaf2", "Leaf", "Other", "Box", "Nope"},
+         boxArgsN |-> {1, 0, 2}, midLsK |-> {2, 1, 0, Atom}, nIdx |-> {1, 0, 2}, connGate |-> {"port", "nogate"}, connSub |-> {"m", "nosub"},
+         link |-> {"L2", "", "L9", "L3"}, entry |-> {"Main", "Nope", "Mid"}, dupGen |-> {FALSE, TRUE}, selfConn |-> {FALSE, TRUE},
+         nK |-> {2, 3, 0}, sideIdx |-> {0, 1, 2, Atom}, boxInArgs |-> {0, 1},
+         gArg |-> {"Iface", "ImplMore", "ImplLess", "ImplGateLess"}, leaf1K |-> {Atom, 1}]
 Base == [leafPortsK |-> 2, leaf2Inherit |-> "Leaf", boxArg |-> "Leaf2", boxArgsN |-> 1, midLsK |-> 2, nIdx |-> 1, connGate |-> "port",
-         connSub |-> "m", link |-> "L2", entry |-> "Main", dupGen |-> FALSE, selfConn |-> FALSE, nK |-> 2, sideIdx |-> 0, boxInArgs |-> 0]
-Changed(q) == Cardinality({f \in DOMAIN Base : q[f] # Base[f]})
+         connSub |-> "m", link |-> "L2", entry |-> "Main", dupGen |-> FALSE, selfConn |-> FALSE, nK |-> 2, sideIdx |-> 0, boxInArgs |-> 0,
+         gArg |-> "Iface", leaf1K |-> Atom]
+Pts == DOMAIN Base
+Alt(f) == Doms[f] \ {Base[f]}
+(* the base description and every description that differs from it in at most MaxChanges (<= 3) variation points *)
+One == UNION {{[Base EXCEPT ![f] = v] : v \in Alt(f)} : f \in Pts}
+Two == UNION {{[Base EXCEPT ![f] = v, ![g] = w] : v \in Alt(f), w \in Alt(g)} : <<f, g>> \in {x \in Pts \X Pts : x[1] # x[2]}}
+Three == UNION {{[Base EXCEPT ![x[1]] = u, ![x[2]] = v, ![x[3]] = w] : u \in Alt(x[1]), v \in Alt(x[2]), w \in Alt(x[3])}
+                  : x \in {y \in Pts \X Pts \X Pts : y[1] # y[2] /\ y[1] # y[3] /\ y[2] # y[3]}}
+Variants == {Base} \cup (IF MaxChanges >= 1 THEN One ELSE {}) \cup (IF MaxChanges >= 2 THEN Two ELSE {}) \cup (IF MaxChanges >= 3 THEN Three ELSE {})
 
 DefOf(q) ==
   [entry |-> q.entry,
@@ -23,6 +32,14 @@ DefOf(q) ==
      Leaf  |-> Mod(<<>>, "", <<F("port", Atom), F("ports", q.leafPortsK)>>, <<>>, <<>>),
      Leaf2 |-> Mod(<<>>, q.leaf2Inherit, <<F("extra", Atom)>>, <<>>, <<>>),
      Other |-> Mod(<<>>, "", <<F("zzz", Atom)>>, <<>>, <<>>),
+     (* an interface with a submodule, an implementation that extends it (inherits, adds a submodule), one that lacks *)
+     (* the submodule and one that lacks the gate; GBox is generic over the interface and wires into the submodule    *)
+     Iface |-> Mod(<<>>, "", <<F("p", Atom)>>, <<Sub("inner", Atom, "Leaf", <<>>)>>, <<>>),
+     ImplMore |-> Mod(<<>>, "Iface", <<F("q", Atom)>>, <<Sub("more", Atom, "Leaf", <<>>)>>, <<>>),
+     ImplLess |-> Mod(<<>>, "", <<F("p", Atom)>>, <<>>, <<>>),
+     ImplGateLess |-> Mod(<<>>, "", <<F("q", Atom)>>, <<Sub("inner", Atom, "Leaf", <<>>)>>, <<>>),
+     GBox  |-> Mod(<<Gen("y", "Iface")>>, "", <<>>, <<Sub("t", Atom, "y", <<>>)>>,
+                   <<Con(<<F("t", Atom), F("inner", Atom), F("port", Atom)>>, <<F("t", Atom), F("p", Atom)>>, "")>>),
      Box   |-> Mod(IF q.dupGen THEN <<Gen("x", "Leaf"), Gen("x", "Leaf")>> ELSE <<Gen("x", "Leaf")>>, "",
                    <<F("up", Atom)>>, <<Sub("in", Atom, "x", IF q.boxInArgs = 1 THEN <<"Leaf">> ELSE <<>>), Sub("in2", 2, "x", <<>>)>>,
                    <<Con(<<F("up", Atom)>>, <<F("in", Atom), F("port", Atom)>>, ""),
@@ -34,13 +51,15 @@ DefOf(q) ==
      Main  |-> Mod(<<>>, "", <<>>,
                    <<Sub("m", Atom, "Mid", <<>>),
                      Sub("b", Atom, "Box", CASE q.boxArgsN = 1 -> <<q.boxArg>> [] q.boxArgsN = 0 -> <<>> [] OTHER -> <<q.boxArg, "Leaf">>),
-                     Sub("n", q.nK, "Leaf", <<>>)>>,
+                     Sub("n", q.nK, "Leaf", <<>>),
+                     Sub("g", Atom, "GBox", <<q.gArg>>),
+                     Sub("one", q.leaf1K, "Leaf", <<>>)>>,
                    <<Con(<<F("n", 0), F(q.connGate, Atom)>>, <<F("n", q.nIdx), F("port", Atom)>>, q.link),
                      Con(<<F("b", Atom), F("up", Atom)>>, <<F(q.connSub, Atom), F("l", Atom), F("port", Atom)>>, "")>>
                    \o (IF q.selfConn THEN <<Con(<<F("n", 0), F("ports", 1)>>, <<F("n", 0), F("ports", 1)>>, "")>> ELSE <<>>))
    ]]
 
-Init == p \in {q \in Slots : Changed(q) <= MaxChanges}
+Init == p \in Variants
 Next == UNCHANGED p
 Spec == Init /\ [][Next]_p
 Emit == PrintT(<<"REPLAY", ToJson([p |-> p, def |-> DefOf(p), elab |-> Elab(DefOf(p))])>>)
